@@ -4,7 +4,8 @@ entry_extend(
     "C12", modules=["contracts.c12_ext"],
     E1=[],
     LEMMAS=False,
-    PROVIDERS=["contracts.c12_ext.provider_threading", "contracts.c12_ext.provider_dispatch"],
+    PROVIDERS=["contracts.c12_ext.provider_threading", "contracts.c12_ext.provider_dispatch",
+               "contracts.c12_ext.provider_dispatch3d"],
     TRUSTED=[
         "E4 (contracts/c12_ext.py, cap threading): python keyword-argument semantics (f(P=x, **D) hands x resp. D[P] to the "
         "callee's parameter P); utils.ensure_dict(x) = {} for None, else a dict COPY (same leaf as contracts/c10_sweeps.py); the "
@@ -17,6 +18,10 @@ entry_extend(
         "fdx (tensor_network_ag_compress): parametricity in the opaque option values (the function body is a single call "
         "that never inspects them: executed on sentinel objects, identity compared); the documented method -> function table "
         "DOCUMENTED in contracts/c12_ext.py, written from the docstring of tensor_network_ag_compress",
+        "fdx (TensorNetwork3D.contract_boundary_from): executed on a recording receiver (copy() and the four core methods "
+        "stubbed) with sentinel option values; `mode` enters the body only through == with the three literals 'peps', 'l2bp3d', "
+        "'projector3d', so the four executed classes (three literals + one other method name) x inplace exhaust its behaviour "
+        "(parametricity in the other-method string and in the option values); the table MODE3 mode -> core",
     ],
     ASSUMPTIONS=[
         "cap threading is decided per function (one level): each callee in SINKS that lies in the target list is itself a "
@@ -33,6 +38,7 @@ entry_extend(
         "TensorNetwork3D.contract_boundary": ["contract_boundary (3D)"],
         "TensorNetwork._contract_compressed_tid_sequence": ["contract_compressed"],
         "TensorNetwork.contract_compressed": ["contract_compressed"],
+        "TensorNetwork3D.contract_boundary_from": ["contract_boundary_from (3D)"],
         "tensor_network_ag_compress": ["tensor_network_ag_compress"]},
     EXPLANATION="E4 + fdx (bond-cap threading, contracts/c12_ext.py): for 36 functions of tn2d/core.py, tn3d/core.py, "
                 "tensor_core.py and tnag/compress.py a def-use analysis of the real ast decides, for all inputs, that the "
@@ -42,7 +48,12 @@ entry_extend(
                 "that neither option is re-bound (only the documented max_bond == 'auto' resolution of contract_compressed), "
                 "that a per-bond compression is skipped only under `(cap is None) or bonds_size(..) > cap` (2D / 3D boundary "
                 "cores, compressed contraction along a tree), and that the per-bond / per-plane compressions of the 2D and 3D "
-                "cores sit under `not compress_late` / `compress_late` inside the sweep. The real tensor_network_ag_compress "
+                "cores sit under `not compress_late` / `compress_late` inside the sweep; every further scalar option (canonize, mode, "
+                "layer_tags, compress_late, equalize_norms, sweep_reverse, lazy) handed to a compressing callee by its own name "
+                "is the caller's (re-bound only under its documented 'auto' / None default resolution). The real "
+                "TensorNetwork3D.contract_boundary_from is executed for every mode class x inplace: works on the receiver iff "
+                "inplace (else one copy), runs exactly the core of the mode once with ranges, from_which, max_bond, cutoff and "
+                "all options unchanged, returns the working network. The real tensor_network_ag_compress "
                 "is executed on every key of its real dispatch table x inplace: the table's function for the method is "
                 "invoked exactly once with max_bond, cutoff and every other option unchanged and its result returned; the "
                 "table maps each documented method name to the function of that name. KEPT OUT (genuine defect, reported): "
